@@ -211,6 +211,30 @@ def handle (op : String) (args : List String) : Option String :=
       | some ps, some pt, some pr => showBool (Reader.checkProgram ps pt false false (pr.map Reader.Act.ofCode))
       | _, _, _ => "bad-arg"
   | "c10.mexec", relist :: newp :: init :: toks => some (mexecLine relist newp init toks)
+  | "c10.grace", [now, kind, arg] => some <|
+      match nat? now with
+      | none => "bad-arg"
+      | some now =>
+        let v? : Option GC.ConfigValue :=
+          if kind = "unset" then some .unset
+          else if kind = "kw" then some (.keyword arg)
+          else if kind = "ago" then (nat? arg).map .secondsAgo
+          else if kind = "abs" then (nat? arg).map .absolute
+          else if kind = "other" then some .other
+          else none
+        match v? with
+        | none => "bad-arg"
+        | some v =>
+          let g := match GC.graceOf Gen.GC.pruneExpireKeywords Gen.GC.pruneExpireUnsetDefault now v with
+            | .refuse => "refuse" | .secs n => s!"secs:{n}" | .noAgeCheck => "none"
+          let e := match GC.expiryOf now v with | some t => s!"{t}" | none => "-"
+          s!"{g}|{e}"
+  | "c10.roots", [init, prog, i, j] => some <|
+      match ids? prog, nat? i, nat? j with
+      | some pr, some i, some j =>
+        let s0 : GC.RefAt := (init = "l" || init = "b", init = "p" || init = "b")
+        showBool (GC.rootSeen (GC.refTrace s0 (pr.map GC.RefAct.ofCode)) i j)
+      | _, _, _ => "bad-arg"
   | "c10.consts", [] => some
       s!"{Gen.GC.maxPackRescanAttempts} {Gen.GC.defaultGracePeriod} {Gen.GC.defaultPruneExpire} {Gen.GC.defaultTempfileGracePeriod} {showBool Gen.GC.getRawReprobesPacks} {showBool Gen.GC.containsReprobesPacks} {showBool Gen.GC.iterRescansAfterLoose} {showBool Gen.GC.getObjectMtimeUsesMax} {showBool Gen.GC.completePackRefreshesMtime}"
   | _, _ => none
